@@ -55,15 +55,15 @@ type wround struct {
 }
 
 type wscript struct {
-	shape  int // 0 unary, 1 server stream, 2 client stream, 3 bidi
-	rounds []wround
-	term   int
-	code   codes.Code
-	emsg   string
-	mutate bool // the sender scribbles over a message right after sending it
+	shape   int // 0 unary, 1 server stream, 2 client stream, 3 bidi
+	rounds  []wround
+	term    int
+	code    codes.Code
+	emsg    string
+	mutate  bool // the sender scribbles over a message right after sending it
 	mdReuse bool // the handler keeps changing the metadata map it handed to SetHeader / SendHeader / SetTrailer
 	preDone bool // cancel/deadline terminals: the context is already cancelled / past its deadline when the call is made
-	late   bool // cancel/deadline terminals: the handler does not watch its context, it returns only when told to after the client is done
+	late    bool // cancel/deadline terminals: the handler does not watch its context, it returns only when told to after the client is done
 }
 
 func (s wscript) String() string {
